@@ -306,6 +306,8 @@ func c07Check(c *ev.Collector, k c07Case) {
 	}
 	status, header, rbody, trailer := recParts(rec)
 	outcome := ""
+	var judgeSel Proto
+	ranJudge := false
 	switch {
 	case k.Method != "POST" || (k.Kind == KBidi && k.Major < 2) || !selected:
 		if status != 405 && status != 415 && status != 505 {
@@ -329,6 +331,7 @@ func c07Check(c *ev.Collector, k c07Case) {
 		default:
 			sel = PConnect
 		}
+		judgeSel, ranJudge = sel, true
 		rs := refwire.DecodeResponse(wireProto(sel), k.Kind == KUnary, ct, status, header, rbody, trailer, AnyDecompress)
 		for _, p := range rs.Problems {
 			viol("response-well-formed", "problem", "response (HTTP %d): %s", status, p)
@@ -462,6 +465,13 @@ func c07Check(c *ev.Collector, k c07Case) {
 				viol("malformed-never-success", "ok", "request body is malformed (%v) but the draining handler answered ok", framing)
 			}
 		}
+	}
+	// unary and server-stream handlers take exactly one request message: what follows it in the
+	// body (a second message, bytes that are no envelope) is malformed framing and may not be
+	// answered as success (enveloped protocols; judged last, under a tag of its own)
+	if ranJudge && !k.Kind.ClientStreams() && !(judgeSel == PConnect && k.Kind == KUnary) && outcome == "ok" && (k.Body == "second-message" || k.Body == "trailing-garbage") {
+		tags = append(tags, "after-the-single-message")
+		viol("single-request-message", "ok", "the request body holds more than the one message this kind of call takes (%s) and was answered as success", k.Body)
 	}
 	if bad {
 		c.Outcome("violation")
